@@ -25,7 +25,7 @@ ASSUMPTIONS = ["sign changes of each family are known exactly from its parameter
                "tolerance semantics: relative to max(1, |x|), floor 4 eps (the solvers' own documented floor D.epsilon)"]
 
 DT = {"float32": np.float32, "float64": np.float64, "longdouble": np.longdouble}
-FAMILIES = ["lin", "cubic", "poly3", "tanh", "expm1", "jump", "definite", "double", "end"]
+FAMILIES = ["lin", "cubic", "poly3", "tanh", "expm1", "jump", "definite", "double", "end", "both_ends"]
 
 
 @st.composite
@@ -88,6 +88,8 @@ class Fn(object):
         fam = self.fam
         if fam in ("definite", "double"):
             return []
+        if fam == "both_ends":
+            return [np.longdouble(self.a), np.longdouble(self.b)] + ([np.longdouble(self.r)] if self.p["gap"] < 0.25 else [])
         if fam == "poly3":
             return [np.longdouble(self.r1), np.longdouble(self.r), np.longdouble(self.r3)]
         return [np.longdouble(self.r)]
@@ -104,6 +106,9 @@ class Fn(object):
             return self.s * d * (d * d + self.c)
         if fam == "poly3":
             return self.s * (x - self.r1) * d * (x - self.r3)
+        if fam == "both_ends":
+            # exactly zero at BOTH ends of the bracket, with (gap < 0.25) or without a sign change strictly inside
+            return self.s * (x - self.a) * (x - self.b) * (d if self.p["gap"] < 0.25 else T(1))
         if fam == "tanh":
             return self.s * np.tanh(self.k * d)
         if fam == "expm1":
@@ -163,6 +168,11 @@ def check(case):
                 out.append(V("outside_bracket", "{} [{}] returned {!r} outside the bracket [{!r}, {!r}] ({})".format(who, idx, xf, lo_, hi_, f.p), sig, **attrs))
         elif strict or who == "vector":
             out.append(V("nonfinite_point", "{} [{}] returned {!r} for a bracket with f(a)={!r}, f(b)={!r} ({})".format(who, idx, xf, fa, fb, f.p), sig, **attrs))
+        if (fa == 0.0 or fb == 0.0) and not strict:
+            # an end of the bracket is an exact root: it (or another root) is reported, with success, inside the bracket
+            if not ok or not np.isfinite(xf):
+                out.append(V("end_root_not_reported", "{} [{}]: f(a)={!r}, f(b)={!r} (an end of the bracket is an exact root) but the solver returned x={!r}, success={}; {}".format(
+                    who, idx, fa, fb, xf, ok, f.p), sig, **attrs))
         if strict:
             if not ok:
                 out.append(V("sign_change_no_success", "{} [{}]: f changes sign over the bracket (f(a)={!r}, f(b)={!r}) but success is not reported; returned x={!r}, nearest sign change at distance {:.3e} (T={:.3e}); {}".format(
@@ -184,7 +194,7 @@ def check(case):
     scalar_x = {}
     for i, f in enumerate(fns):
         lo, hi = (f.b, f.a) if f.p["rev"] else (f.a, f.b)
-        nontrivial |= (not 0.1 <= abs(f.p["s"]) <= 10) or f.fam in ("jump", "end") or f.p["rev"]
+        nontrivial |= (not 0.1 <= abs(f.p["s"]) <= 10) or f.fam in ("jump", "end", "both_ends") or f.p["rev"]
         labels.append("fam:" + f.fam)
         try:
             f.calls = 0
